@@ -463,7 +463,13 @@ Definition check_C15 (c : case) : Z :=
       let spec := if n <? NANOS_PER_DAY then tm_is out n 0 else is_oor out in
       verdict (obs_eqb (obs_tm (time_from_nanos n)) out) (err_excludes_value out && spec)
   | (Op_offset_from_seconds | Op_offset_from_hms), _ =>
-      let v := check_C10 c in let s := err_excludes_value out in
+      (* a stated range must also contain every accepted value: hours of an offset are -23..=23 (name code 5),
+         its minutes and seconds 0..=59 (6, 7), its total seconds -86399..=86399 *)
+      let brackets := match out with
+                      | OErr 1 [5; mn; mx; _; 0] => (match c_op c with Op_offset_from_hms => (mn <=? -23) && (23 <=? mx) | _ => true end)
+                      | OErr 1 [6; mn; mx; _; 0] | OErr 1 [7; mn; mx; _; 0] => (mn <=? 0) && (59 <=? mx)
+                      | _ => true end in
+      let v := check_C10 c in let s := err_excludes_value out && brackets in
       if v =? 0 then verdict true s else if v =? 1 then verdict false s else v
   | (Op_dt_set | Op_time_set | Op_date_set), _ =>
       (* a correspondence mismatch (1) must not hide a failure of this property's own oracle *)
